@@ -91,6 +91,30 @@ def enumerate_mutants():
                         end = i
                         break
                 in_block_comment = False
+                # fields of the structs of this file, grouped by declared type: candidates for `self.f` -> `self.g`
+                same_type_fields = {}
+                by_struct = []
+                cur = None
+                for l in lines[:end]:
+                    ms = re.match(r"\s*(pub(\([a-z]+\))? )?struct \w+.*\{\s*$", l)
+                    if ms:
+                        cur = []
+                        continue
+                    if cur is not None:
+                        if l.strip().startswith("}"):
+                            by_struct.append(cur)
+                            cur = None
+                            continue
+                        mf = re.match(r"\s*(pub(\([a-z]+\))? )?([a-z_]\w*): ([^,]+),?\s*$", l)
+                        if mf:
+                            cur.append((mf.group(3), mf.group(4).strip()))
+                for flds_ in by_struct:
+                    for f_, t_ in flds_:
+                        for g_, u_ in flds_:
+                            if g_ != f_ and u_ == t_:
+                                same_type_fields.setdefault(f_, [])
+                                if g_ not in same_type_fields[f_]:
+                                    same_type_fields[f_].append(g_)
                 for ln in range(end):
                     raw = lines[ln]
                     st = raw.strip()
@@ -143,6 +167,30 @@ def enumerate_mutants():
                         add(m.start(), tok, fmt(v + 1), "lit")
                         if v >= 1:
                             add(m.start(), tok, fmt(v - 1), "lit")
+                    # truncating casts
+                    for old_, new_ in ((" as usize", " as u8 as usize"), (" as u64", " as u32 as u64"), (" as u32", " as u16 as u32"), (" as usize", " as u16 as usize")):
+                        start = 0
+                        while True:
+                            pos = masked.find(old_, start)
+                            if pos < 0:
+                                break
+                            start = pos + 1
+                            add(pos, old_, new_, "trunc")
+                    # swapped adjacent identifier arguments `(a, b` -> `(b, a`
+                    for m in re.finditer(r"(?<=[(,] )?\b([a-z_][\w.]*), ([a-z_][\w.]*)(?=[,)])", masked):
+                        a_, b_ = m.group(1), m.group(2)
+                        if a_ != b_ and masked[max(0, m.start() - 1)] in "( ":
+                            add(m.start(), m.group(0), "%s, %s" % (b_, a_), "args")
+                    # `self.f` -> `self.g` for another field g of a struct of this file with the same declared type
+                    for m in (re.finditer(r"\bself\.([a-z_]\w*)\b(?!\s*\()", masked) if ".field(" not in masked else ()):  # (Debug text: no property)
+                        f_ = m.group(1)
+                        for g_ in same_type_fields.get(f_, ()):
+                            add(m.start(), m.group(0), "self." + g_, "field")
+                    # a statement removed (calls / assignments; not declarations, returns or macros handled elsewhere)
+                    if re.match(r"\s*[a-z_*(][^;]*;\s*$", code) and not re.match(r"\s*(let|use|pub|const|type|return|static|mod|fn|impl|struct|enum|assert|debug_assert|break|continue)\b", code) \
+                            and code.count("(") == code.count(")") and code.count("{") == code.count("}"):
+                        muts.append({"file": rel, "line": ln + 1, "kind": "stmt", "old": st, "new": "", "orig": raw,
+                                     "mut": re.match(r"\s*", raw).group(0) + "// (statement removed)"})
                     # single-line assertion dropped
                     if re.match(r"\s*(assert|assert_eq|assert_ne)!\(.*\);\s*$", code):
                         muts.append({"file": rel, "line": ln + 1, "kind": "drop", "old": st, "new": "", "orig": raw,
